@@ -446,6 +446,28 @@ theorem C15_reloader_meets_spec_fixed (m0 : Option Mtime) (text0 : Text) (st0 : 
     specHistory parse m0 text0 (obsOf .unchanged st0) (modelPolls parse true st0 h) = none :=
   specHistory_model parse true m0 text0 st0 hinit h (Or.inl rfl) .unchanged
 
+/-- now that `/repo` carries the patch (`codeFixed = true`), the FULL statement holds -/
+theorem C15_reloader_meets_spec : C15_reloader_meets_spec_statement := by
+  intro Text _ parse m0 text0 st0 h hinit
+  exact specHistory_model parse codeFixed m0 text0 st0 hinit h (Or.inl rfl) .unchanged
+
+/-! ### the real thread: `loop { sleep(rate); poll }` with time abstracted -/
+
+/-- the basis of the timing abstraction: it does not matter how many times the loop polls between
+two edits — a second poll of the same file view changes nothing and never calls `set_config` -/
+theorem C15_repeated_polls_idempotent (fixed : Bool) (st : RState Text) (fv : FileView Text) (n : Nat) :
+    pollMany parse fixed st fv n = (poll parse fixed st fv).1 ∧
+    (poll parse fixed (poll parse fixed st fv).1 fv).2 ≠ .applied :=
+  ⟨pollMany_eq parse fixed fv n st, (poll_idem parse fixed st fv).2⟩
+
+/-- with ordinary refresh rates only, what the thread shows after each edit (active configuration,
+touched, alive) is exactly what the poll history of `run` shows: the theorems about `pollAll` /
+`runAll` speak about the real loop as the harness observes it -/
+theorem C15_thread_shows_poll_history (hf : FastRates parse) (fixed : Bool) (views : List (FileView Text))
+    (st : RState Text) (cur : FileView Text) (h : st.rate < slowRate) :
+    threadRun parse fixed st cur (views.map .edit) = (pollAll parse fixed st views).map tobsOf :=
+  threadRun_fast parse hf fixed views st cur h
+
 end
 
 /-! ### the finding, on a concrete witness -/
@@ -477,6 +499,10 @@ example : (pollAll parseDoc false wInit [.ok 11 wBad, .ok 12 wBad, .ok 13 wA]).m
 /-- a same-mtime edit is missed, and seen as soon as the mtime moves -/
 example : (pollAll parseDoc false wInit [.ok 10 wB, .ok 11 wB]).map
     (fun p => (p.1, p.2.active, p.2.rate)) = [(.unchanged, 1, 30), (.applied, 2, 60)] := by decide
+/-- a slow refresh rate defers the next poll: the edit is picked up only after the long wait -/
+example : (threadRun parseDoc true wInit (.ok 10 wA)
+      [.edit (.ok 11 { kind := .good, tag := 5, rate := some 3000, nonce := 0 }), .edit (.ok 12 wB), .longWait]).map
+    (fun o => (o.active, o.touched, o.polled)) = [(5, true, true), (5, false, false), (2, true, true)] := by decide
 /-- deletion keeps the configuration and the loop; removal of refresh_rate ends the loop -/
 example : (pollAll parseDoc false wInit [.missing, .ok 11 wNoRate, .ok 12 wB]).map
     (fun p => (p.1, p.2.active, p.2.alive)) = [(.error, 1, true), (.applied, 3, false), (.dead, 3, false)] := by
